@@ -10,21 +10,36 @@ Base/Res.vos Base/Res.vok Base/Res.required_vos: Base/Res.v
 Gen/Consts.vo Gen/Consts.glob Gen/Consts.v.beautified Gen/Consts.required_vo: Gen/Consts.v 
 Gen/Consts.vio: Gen/Consts.v 
 Gen/Consts.vos Gen/Consts.vok Gen/Consts.required_vos: Gen/Consts.v 
+Gen/RrlConsts.vo Gen/RrlConsts.glob Gen/RrlConsts.v.beautified Gen/RrlConsts.required_vo: Gen/RrlConsts.v 
+Gen/RrlConsts.vio: Gen/RrlConsts.v 
+Gen/RrlConsts.vos Gen/RrlConsts.vok Gen/RrlConsts.required_vos: Gen/RrlConsts.v 
 Model/NameWire.vo Model/NameWire.glob Model/NameWire.v.beautified Model/NameWire.required_vo: Model/NameWire.v Base/Res.vo Base/Octets.vo Gen/Consts.vo
 Model/NameWire.vio: Model/NameWire.v Base/Res.vio Base/Octets.vio Gen/Consts.vio
 Model/NameWire.vos Model/NameWire.vok Model/NameWire.required_vos: Model/NameWire.v Base/Res.vos Base/Octets.vos Gen/Consts.vos
+Model/Rrl.vo Model/Rrl.glob Model/Rrl.v.beautified Model/Rrl.required_vo: Model/Rrl.v Base/Res.vo Base/Octets.vo Gen/RrlConsts.vo
+Model/Rrl.vio: Model/Rrl.v Base/Res.vio Base/Octets.vio Gen/RrlConsts.vio
+Model/Rrl.vos Model/Rrl.vok Model/Rrl.required_vos: Model/Rrl.v Base/Res.vos Base/Octets.vos Gen/RrlConsts.vos
 Proofs/NameWireP.vo Proofs/NameWireP.glob Proofs/NameWireP.v.beautified Proofs/NameWireP.required_vo: Proofs/NameWireP.v Base/ListX.vo Model/NameWire.vo Spec/NameWireS.vo Spec/NameRepr.vo
 Proofs/NameWireP.vio: Proofs/NameWireP.v Base/ListX.vio Model/NameWire.vio Spec/NameWireS.vio Spec/NameRepr.vio
 Proofs/NameWireP.vos Proofs/NameWireP.vok Proofs/NameWireP.required_vos: Proofs/NameWireP.v Base/ListX.vos Model/NameWire.vos Spec/NameWireS.vos Spec/NameRepr.vos
 Proofs/NameWireSP.vo Proofs/NameWireSP.glob Proofs/NameWireSP.v.beautified Proofs/NameWireSP.required_vo: Proofs/NameWireSP.v Base/ListX.vo Spec/NameWireS.vo
 Proofs/NameWireSP.vio: Proofs/NameWireSP.v Base/ListX.vio Spec/NameWireS.vio
 Proofs/NameWireSP.vos Proofs/NameWireSP.vok Proofs/NameWireSP.required_vos: Proofs/NameWireSP.v Base/ListX.vos Spec/NameWireS.vos
+Proofs/RrlP.vo Proofs/RrlP.glob Proofs/RrlP.v.beautified Proofs/RrlP.required_vo: Proofs/RrlP.v Base/Res.vo Base/Octets.vo Model/Rrl.vo Spec/RrlBucketS.vo
+Proofs/RrlP.vio: Proofs/RrlP.v Base/Res.vio Base/Octets.vio Model/Rrl.vio Spec/RrlBucketS.vio
+Proofs/RrlP.vos Proofs/RrlP.vok Proofs/RrlP.required_vos: Proofs/RrlP.v Base/Res.vos Base/Octets.vos Model/Rrl.vos Spec/RrlBucketS.vos
 Props/C14.vo Props/C14.glob Props/C14.v.beautified Props/C14.required_vo: Props/C14.v Base/ListX.vo Model/NameWire.vo Spec/NameWireS.vo Spec/NameRepr.vo Proofs/NameWireP.vo Proofs/NameWireSP.vo
 Props/C14.vio: Props/C14.v Base/ListX.vio Model/NameWire.vio Spec/NameWireS.vio Spec/NameRepr.vio Proofs/NameWireP.vio Proofs/NameWireSP.vio
 Props/C14.vos Props/C14.vok Props/C14.required_vos: Props/C14.v Base/ListX.vos Model/NameWire.vos Spec/NameWireS.vos Spec/NameRepr.vos Proofs/NameWireP.vos Proofs/NameWireSP.vos
+Props/C26.vo Props/C26.glob Props/C26.v.beautified Props/C26.required_vo: Props/C26.v Base/Res.vo Base/Octets.vo Model/Rrl.vo Spec/RrlBucketS.vo Proofs/RrlP.vo
+Props/C26.vio: Props/C26.v Base/Res.vio Base/Octets.vio Model/Rrl.vio Spec/RrlBucketS.vio Proofs/RrlP.vio
+Props/C26.vos Props/C26.vok Props/C26.required_vos: Props/C26.v Base/Res.vos Base/Octets.vos Model/Rrl.vos Spec/RrlBucketS.vos Proofs/RrlP.vos
 Spec/NameRepr.vo Spec/NameRepr.glob Spec/NameRepr.v.beautified Spec/NameRepr.required_vo: Spec/NameRepr.v Model/NameWire.vo Spec/NameWireS.vo
 Spec/NameRepr.vio: Spec/NameRepr.v Model/NameWire.vio Spec/NameWireS.vio
 Spec/NameRepr.vos Spec/NameRepr.vok Spec/NameRepr.required_vos: Spec/NameRepr.v Model/NameWire.vos Spec/NameWireS.vos
 Spec/NameWireS.vo Spec/NameWireS.glob Spec/NameWireS.v.beautified Spec/NameWireS.required_vo: Spec/NameWireS.v Base/Res.vo Base/Octets.vo
 Spec/NameWireS.vio: Spec/NameWireS.v Base/Res.vio Base/Octets.vio
 Spec/NameWireS.vos Spec/NameWireS.vok Spec/NameWireS.required_vos: Spec/NameWireS.v Base/Res.vos Base/Octets.vos
+Spec/RrlBucketS.vo Spec/RrlBucketS.glob Spec/RrlBucketS.v.beautified Spec/RrlBucketS.required_vo: Spec/RrlBucketS.v 
+Spec/RrlBucketS.vio: Spec/RrlBucketS.v 
+Spec/RrlBucketS.vos Spec/RrlBucketS.vok Spec/RrlBucketS.required_vos: Spec/RrlBucketS.v 
